@@ -15,10 +15,8 @@ Fixpoint along (p : schema -> action -> bool) (s : schema) (acts : list action) 
   | a :: r => (p s a || along p (step s a) r)%bool
   end.
 
-Definition constraints_of (s : schema) (t : string) : list table_constraint :=
-  match find_table t s with Some td => t_constraints td | None => [] end.
-
-(* ---- D19: MODIFY COLUMN never restates AUTO_INCREMENT ---- *)
+(* ---- D19: MODIFY COLUMN never restated AUTO_INCREMENT — FIXED by N1 (restate_mysql_column_attributes); the classifier
+   is kept for the record and for theorem-coverage counts, it is no longer in known_classifiers ---- *)
 Definition is_auto_col (s : schema) (t c : string) : bool := mem_str c (auto_increment_columns (constraints_of s t)).
 Definition p_autoinc_modify (s : schema) (a : action) : bool :=
   match a with
@@ -224,4 +222,4 @@ Fixpoint known_C04_inline_orphan (s : schema) (acts : list action) : bool :=
 
 (* order = order of the "classifier" fields looked up by checks/mysqlrun.py *)
 Definition known_classifiers : list (schema -> list action -> bool) :=
-  [known_C04_autoinc_lost; known_C04_check_missing; known_C04_drop_before_unreference; known_C04_drop_fk_column; known_C04_composite_member_drop; known_C04_autoinc_key_removed; known_C04_rename_drift; known_C04_fk_drop_leaves_index; known_C04_derived_name_collision; known_C04_check_name_scope; known_C04_key_needed_by_fk; known_C04_last_column_drop; known_C04_autoinc_not_added; known_C04_fk_lost_by_ref_name; known_C04_reference_added_later; known_C04_inline_orphan].
+  [known_C04_check_missing; known_C04_drop_before_unreference; known_C04_drop_fk_column; known_C04_composite_member_drop; known_C04_autoinc_key_removed; known_C04_rename_drift; known_C04_fk_drop_leaves_index; known_C04_derived_name_collision; known_C04_check_name_scope; known_C04_key_needed_by_fk; known_C04_last_column_drop; known_C04_autoinc_not_added; known_C04_fk_lost_by_ref_name; known_C04_reference_added_later; known_C04_inline_orphan].
